@@ -27,11 +27,18 @@ type memStream struct {
 	frags       []int
 	fi          int
 	tailFail    bool
+	transientAt int // >0: one read error after this many bytes, then the stream goes on
+	delivered   int
+	tripped     bool
 	out         bytes.Buffer
 	writes      int
 }
 
 func (m *memStream) Read(p []byte) (int, error) {
+	if m.transientAt > 0 && !m.tripped && m.delivered >= m.transientAt {
+		m.tripped = true
+		return 0, errStream
+	}
 	if len(m.in) == 0 {
 		if m.tailFail {
 			return 0, errStream
@@ -48,8 +55,12 @@ func (m *memStream) Read(p []byte) (int, error) {
 	if n > len(m.in) {
 		n = len(m.in)
 	}
+	if m.transientAt > 0 && !m.tripped && m.delivered+n > m.transientAt {
+		n = m.transientAt - m.delivered
+	}
 	copy(p, m.in[:n])
 	m.in = m.in[n:]
+	m.delivered += n
 	return n, nil
 }
 func (m *memStream) Write(p []byte) (int, error)        { m.writes++; return m.out.Write(p) }
@@ -415,6 +426,9 @@ func (it *wtInterp) Exec(line string) string {
 			it.r.done()
 		}
 		it.r = newR(int64(atoi(t[2])), t[3] == "f", t[4] == "1", unhx(t[5]), unints(t[6]), rbufOf(t))
+		if strings.HasPrefix(t[3], "t") { // t<k>: a single read error after k bytes, the stream recovers
+			it.r.s.transientAt = atoi(t[3][1:])
+		}
 		return "ok"
 	case "next":
 		return it.r.next()
@@ -738,6 +752,45 @@ func famWTRead(t *testing.T, r *Rec) {
 		if len(r.samples) < 6 && len(sc.stream) < 60 {
 			r.Sample(strings.Join(replay, " ; "))
 		}
+	}
+	// a read error in the middle of a payload, on a stream that would go on afterwards: the failure is sticky for
+	// the message reader and for the connection
+	for k := 0; k < 12; k++ {
+		n1, n2 := 20+r.rng.IntN(60), 5+r.rng.IntN(20)
+		m1, m2 := payload(r.rng, n1), payload(r.rng, n2)
+		stream := append(specEncode("t", m1, formMin), specEncode("b", m2, formMin)...)
+		at := 2 + r.rng.IntN(n1-4) // inside the first payload
+		rbuf := []int{0, 16, 32}[r.rng.IntN(3)]
+		r.scenarios++
+		it := &wtInterp{}
+		var replay []string
+		do := func(op string) string {
+			out := it.Exec(op)
+			r.Op(op, out)
+			replay = append(replay, op)
+			return out
+		}
+		do(fmt.Sprintf("wt rnew 0 t%d 0 %s - %d", at, hx(stream), rbuf))
+		r.Cover(fmt.Sprintf("transient/rbuf=%d", rbuf))
+		do("wt next")
+		first := do(fmt.Sprintf("wt read %d", n1+10))
+		ff := strings.Fields(first)
+		if len(ff) == 3 && ff[2] != "-" {
+			for i := 0; i < 2; i++ {
+				o := do("wt read 50")
+				if of := strings.Fields(o); len(of) != 3 || of[2] != ff[2] || (of[1] != "-" && of[1] != "") {
+					r.Violate("C15", "C15/sticky/read-after-transient-error", "Read after a failed Read of the same message reported "+o+" (first failure: "+first+")", replay)
+				}
+			}
+			for i := 0; i < 2; i++ {
+				if o := do("wt next"); o != "err "+ff[2] {
+					r.Violate("C15", "C15/sticky/next-after-transient-error", "NextReader after a failed Read reported "+o+" (failure: "+ff[2]+")", replay)
+				}
+			}
+		} else {
+			r.Violate("C15", "C15/transient-not-reported", "a stream error inside a payload was not reported: "+first, replay)
+		}
+		it.r.done()
 	}
 	// the documented guard: the 1000th failing NextReader panics, none before
 	{
